@@ -51,6 +51,7 @@ inductive Err where
   | XPTY0004                 -- collation argument is the empty sequence
   | FOCH0002                 -- unsupported collation (`xpath_error('FOCH0002', ...)`)
   | localeError              -- a bare `locale.Error` (only `__exit__`'s restore can raise it)
+  | valueError               -- `ValueError` from `locale.getlocale` (pinned tree only)
   | body (code : Nat)        -- whatever the body of the `with` block raised
   deriving DecidableEq, Repr, Inhabited
 
@@ -92,6 +93,18 @@ def parseColl : Option String → Except Err Mgr
     else if c.startsWith UCA_BASE then
       .ok ((ucaQuery c).splitOn ";" |>.foldl ucaParam ⟨some (.name enUS), true⟩)
     else .ok ⟨some (.name c), false⟩
+
+/-- `XPath2Parser.__init__` (xpath2_parser.py 120-130) when no `default_collation` argument is
+given: a UTF-8 `LC_COLLATE` of the process selects the UCA collation of that language, anything
+else the code-point collation.  `none` = the `language_code, encoding = _locale.split('.')`
+unpacking fails (`ValueError`: a name with two or more dots). -/
+def defaultCollation (lc : Loc) : Option String :=
+  if lc.contains '.' then
+    match lc.splitOn "." with
+    | [code, enc] => if enc.toLower == "utf-8" then some (UCA_BASE ++ "?lang=" ++ code)
+                     else some CODEPOINT
+    | _ => none
+  else some CODEPOINT
 
 /-! ## Process state and the C library -/
 
@@ -182,6 +195,36 @@ def exit (w : World) (saved : Option Loc) (σ : State) : Res Unit :=
     match setloc w σ s with
     | some σ' => .ok () { σ' with lock := false }
     | none => .err .localeError (logFail σ s)
+
+/-! ## The pinned tree (before the two `fix:` commits) — kept as a checked record of F19 / F19c
+
+`__enter__` saved `locale.getlocale(LC_COLLATE)` — a parsed and normalised `(language, encoding)`
+pair — and let a failing fallback `setlocale` escape.  `rt n` is the name that
+`setlocale(LC_COLLATE, getlocale())` asks for when the current name is `n` (`none`: `getlocale`
+raises `ValueError: unknown locale`). -/
+namespace Pinned
+
+def enter (w : World) (rt : Loc → Option Loc) (m : Mgr) (σ : State) : Res (Option Loc) :=
+  match m.lc with
+  | none => .ok none σ
+  | some req =>
+    if σ.lock then .stuck σ
+    else
+      let σ1 := { σ with lock := true }
+      match rt σ1.lc with
+      | none => .err .valueError σ1                       -- lock stays held
+      | some saved =>
+        match setloc w σ1 (w.norm req) with
+        | some σ2 => .ok (some saved) σ2
+        | none =>
+          let σ1' := logFail σ1 (w.norm req)
+          if !m.fallback then .err .FOCH0002 { σ1' with lock := false }
+          else
+            match setloc w σ1' enUS with
+            | some σ2 => .ok (some saved) σ2
+            | none => .err .localeError (logFail σ1' enUS)   -- bare locale.Error, lock stays held
+
+end Pinned
 
 /-! ## Evaluations and histories -/
 
